@@ -12,7 +12,7 @@ against Trace_ZkAbacus.tla; the driver's own bookkeeping is never used as an ora
 import random
 
 I64_MAX = 2**63 - 1
-FAULTS = ["garbage", "altbal", "altcid", "altlock", "wrongtype", "oldstate", "otherkey", "wrongbf", "identity", "smallorder", "swapbal", "altslot2", "otherbf"]
+FAULTS = ["garbage", "altbal", "altcid", "altlock", "wrongtype", "oldstate", "otherkey", "wrongbf", "identity", "smallorder", "swapbal", "altslot2", "otherbf", "altcid_hi"]
 REVKINDS = ["newstate", "wrongbf", "otherchan", "bothwrong", "laterindex", "shiftedbf"]
 
 
